@@ -1,6 +1,7 @@
 import Pms.Props.Extra
 import Pms.Props.Filon
 import Pms.Props.WaveX
+import Pms.Props.Pack
 
 #print axioms Pms.Extra.E_lines_intersection
 #print axioms Pms.Extra.E_lines_parallel
@@ -28,3 +29,9 @@ import Pms.Props.WaveX
 #print axioms Pms.WaveX.E_continuous3_mem
 #print axioms Pms.WaveX.E_continuous2_mem
 #print axioms Pms.WaveX.E_continuous_nodup
+#print axioms Pms.Pack.E_pack_ref_symm
+#print axioms Pms.Pack.E_pack_unordered
+#print axioms Pms.Pack.E_pack_perm
+#print axioms Pms.Pack.E_pack_nonneg
+#print axioms Pms.Pack.E_pack_cos
+#print axioms Pms.Pack.E_pack_ideal_zero
